@@ -135,6 +135,9 @@ func Host(fn *ssa.Function) *ssa.Function {
 	return fn
 }
 
+// TransparentSite is the only call site of a transparent function.
+func TransparentSite(fn *ssa.Function) *ssa.Call { return transparentSite[Canon(fn)] }
+
 // IsTransparent reports whether fn is analysed as part of its enclosing function.
 func IsTransparent(fn *ssa.Function) bool { return fn != nil && transparentSite[fn] != nil }
 
